@@ -148,6 +148,17 @@ impl E {
     /// Builds the msi::Expr through the public constructors and operator
     /// impls only.  May panic inside the library (constant folding); callers
     /// wrap in `catch`.
+    /// The operands of a top-level chain of ANDs, left to right.
+    pub fn conjuncts(&self) -> Vec<&E> {
+        match self {
+            E::Bin(Bin::And, a, b) => {
+                let mut v = a.conjuncts();
+                v.extend(b.conjuncts());
+                v
+            }
+            e => vec![e],
+        }
+    }
     pub fn to_msi(&self) -> msi::Expr {
         use msi::Expr as X;
         match self {
@@ -704,6 +715,27 @@ impl Sel {
                 }
                 if let Some(c) = cond {
                     s = s.with(c.to_msi());
+                }
+                s
+            }
+        }
+    }
+    /// Like `to_msi`, but a condition that is a conjunction is given as one
+    /// `with()` call per conjunct (documented to mean the same).
+    pub fn to_msi_split(&self) -> msi::Select {
+        match self {
+            Sel::Table(t) => msi::Select::table(t.clone()),
+            Sel::Inner(l, r, on) => l.to_msi_split().inner_join(r.to_msi_split(), on.to_msi()),
+            Sel::Left(l, r, on) => l.to_msi_split().left_join(r.to_msi_split(), on.to_msi()),
+            Sel::Wrap { from, cols, cond } => {
+                let mut s = from.to_msi_split();
+                if !cols.is_empty() {
+                    s = s.columns(&cols[..]);
+                }
+                if let Some(c) = cond {
+                    for part in c.conjuncts() {
+                        s = s.with(part.to_msi());
+                    }
                 }
                 s
             }
